@@ -671,7 +671,14 @@ func TestC13Process(t *testing.T) {
 type twoDesc struct {
 	DurS   int   `json:"durS"`   // duration of the timer, seconds
 	GapS   int   `json:"gapS"`   // clock time between the creation of instance A and B
-	StepsS []int `json:"stepsS"` // clock advances (seconds) after both exist
+	StepsS []int `json:"stepsS"` // clock advances (seconds) after both exist; 0 = deliver the signal "sx" instead
+	// SharedBuilder: both instances are created with ONE timer definition
+	// builder and report to ONE tracer (the way the repository's model package
+	// sets instances up); otherwise a builder and a tracer each
+	SharedBuilder bool `json:"sharedBuilder,omitempty"`
+	// Multi: "" = the catch event has the timer definition only; "multiple" /
+	// "parallel" = timer and signal "sx", plain multiple resp. parallel-multiple
+	Multi string `json:"multi,omitempty"`
 }
 
 func runTwo(d twoDesc) *result {
@@ -680,6 +687,10 @@ func runTwo(d twoDesc) *result {
 	st := b.Add(gen.KStart)
 	c := b.Add(gen.KCatch)
 	c.Defs = []gen.EventDef{{Kind: "timer", TimerKind: "timeDuration", TimerExpr: fmt.Sprintf("PT%dS", d.DurS)}}
+	if d.Multi != "" {
+		c.Defs = append(c.Defs, gen.EventDef{Kind: "signal", Ref: "sx"})
+		c.ParallelMul = d.Multi == "parallel"
+	}
 	b.Connect(st, c)
 	after := b.Add(gen.KTask)
 	b.Connect(c, after)
@@ -702,25 +713,52 @@ func runTwo(d twoDesc) *result {
 		tasks int
 		due   time.Time
 	}
-	mk := func() (*inst, error) {
-		in := &inst{due: mock.Now().Add(time.Duration(d.DurS) * time.Second)}
-		tracer := tracing.NewTracer(ctx)
-		builder := event.DefinitionInstanceBuildingChain(timer.EventDefinitionInstanceBuilder(ctx, fan, tracer))
-		sub := tracer.SubscribeChannel(make(chan tracing.ITrace))
-		go func() {
-			for t := range sub {
-				if _, ok := tracing.Unwrap(t).(bpmn.TaskTrace); ok {
-					in.mu.Lock()
-					in.tasks++
-					in.mu.Unlock()
+	var rmu sync.Mutex
+	byID := map[string]*inst{}
+	count := func(sub chan tracing.ITrace, only *inst) {
+		for t := range sub {
+			if _, ok := tracing.Unwrap(t).(bpmn.TaskTrace); !ok {
+				continue
+			}
+			in := only
+			if in == nil {
+				// shared tracer: the instance is named by the InstanceTrace wrapper
+				if it, ok := t.(bpmn.InstanceTrace); ok {
+					rmu.Lock()
+					in = byID[it.InstanceId.String()]
+					rmu.Unlock()
 				}
 			}
-		}()
+			if in != nil {
+				in.mu.Lock()
+				in.tasks++
+				in.mu.Unlock()
+			}
+		}
+	}
+	var sharedTracer tracing.ITracer
+	var sharedBuilder event.IDefinitionInstanceBuilder
+	if d.SharedBuilder {
+		sharedTracer = tracing.NewTracer(ctx)
+		sharedBuilder = event.DefinitionInstanceBuildingChain(timer.EventDefinitionInstanceBuilder(ctx, fan, sharedTracer), event.WrappingDefinitionInstanceBuilder)
+		go count(sharedTracer.SubscribeChannel(make(chan tracing.ITrace)), nil)
+	}
+	mk := func() (*inst, error) {
+		in := &inst{due: mock.Now().Add(time.Duration(d.DurS) * time.Second)}
+		tracer, builder := sharedTracer, sharedBuilder
+		if !d.SharedBuilder {
+			tracer = tracing.NewTracer(ctx)
+			builder = event.DefinitionInstanceBuildingChain(timer.EventDefinitionInstanceBuilder(ctx, fan, tracer), event.WrappingDefinitionInstanceBuilder)
+			go count(tracer.SubscribeChannel(make(chan tracing.ITrace)), in)
+		}
 		proc, err := bpmn.NewEngine().NewProcess(defs, bpmn.WithContext(ctx), bpmn.WithTracer(tracer),
 			bpmn.WithProcessEventDefinitionInstanceBuilder(builder), bpmn.WithEventEgress(fan), bpmn.WithEventIngress(fan))
 		if err != nil {
 			return nil, err
 		}
+		rmu.Lock()
+		byID[proc.Id().String()] = in
+		rmu.Unlock()
 		if err := proc.StartAll(ctx); err != nil {
 			return nil, err
 		}
@@ -749,12 +787,25 @@ func runTwo(d twoDesc) *result {
 		r.Inconcl = err.Error()
 		return r
 	}
+	signals := 0
 	check := func(stage string) bool {
 		now := mock.Now()
 		for name, in := range map[string]*inst{"A": a, "B": bb} {
 			want := 0
-			if !now.Before(in.due) {
-				want = 1
+			timerFired := !now.Before(in.due)
+			switch d.Multi {
+			case "multiple":
+				if timerFired || signals > 0 {
+					want = 1
+				}
+			case "parallel":
+				if timerFired && signals > 0 {
+					want = 1
+				}
+			default:
+				if timerFired {
+					want = 1
+				}
 			}
 			in.mu.Lock()
 			got := in.tasks
@@ -775,7 +826,16 @@ func runTwo(d twoDesc) *result {
 		return r
 	}
 	for i, s := range d.StepsS {
-		mock.Add(time.Duration(s) * time.Second)
+		if s == 0 {
+			if d.Multi == "" {
+				continue
+			}
+			// both instances listen from their creation on: the signal reaches both
+			fan.ConsumeEvent(event.NewSignalEvent("sx"))
+			signals++
+		} else {
+			mock.Add(time.Duration(s) * time.Second)
+		}
 		if _, err := tr.Wait(0); err != nil {
 			r.Inconcl = err.Error()
 			return r
@@ -811,6 +871,13 @@ func TestC13TwoInstances(t *testing.T) {
 				d.StepsS[i] = 1
 			}
 		}
+		d.SharedBuilder = rapid.Bool().Draw(rt, "sharedBuilder")
+		d.Multi = rapid.SampledFrom([]string{"", "", "multiple", "parallel"}).Draw(rt, "multi")
+		if d.Multi != "" {
+			// the signal somewhere among the clock steps
+			at := rapid.IntRange(0, len(d.StepsS)).Draw(rt, "signalAt")
+			d.StepsS = append(d.StepsS[:at:at], append([]int{0}, d.StepsS[at:]...)...)
+		}
 		hash := rec.Hash(d)
 		rec.Begin("TestC13TwoInstances", hash, d)
 		r := runTwo(d)
@@ -820,7 +887,14 @@ func TestC13TwoInstances(t *testing.T) {
 			rt.Fatalf("inconclusive: %s", r.Inconcl)
 		}
 		rec.End(hash, r.Symptom)
-		rec.Case("TestC13TwoInstances", hash, true, []string{"twoInstancesOneBus"}, map[string]any{"case": d, "log": r.Log})
+		cls := []string{"twoInstancesOneBus"}
+		if d.SharedBuilder {
+			cls = append(cls, "oneTimerBuilderForBoth")
+		}
+		if d.Multi != "" {
+			cls = append(cls, "timerAndSignal:"+d.Multi)
+		}
+		rec.Case("TestC13TwoInstances", hash, true, cls, map[string]any{"case": d, "log": r.Log})
 		if r.Symptom != "" {
 			rt.Fatalf("%s", rec.Fail(rec.Failure{Property: prop, Test: "TestC13TwoInstances", Symptom: r.Symptom, Detail: r.Detail, Descriptor: d, History: r.Log}))
 		}
